@@ -215,7 +215,7 @@ fn options_grid(rep: &mut Report) {
 
 pub fn run(cfg: &Cfg) -> Report {
     let shards = 32;
-    let per = cfg.n(8, 150);
+    let per = cfg.n(120, 2500);
     let reports = par_map(shards, |sh| {
         let mut rng = rng_for(cfg.seed, "C15", sh as u64);
         let mut rep = Report::new();
